@@ -13,6 +13,8 @@ theorem topDown_jxs (x p) (h : r (.jxs x p) = none) : topDown r (.jxs x p) = .jx
 theorem topDown_bracket (x i) (h : r (.bracket x i) = none) : topDown r (.bracket x i) = .bracket (topDown r x) i := by
   rw [topDown.eq_def, h]
 theorem topDown_paren (x) (h : r (.paren x) = none) : topDown r (.paren x) = .paren (topDown r x) := by rw [topDown.eq_def, h]
+theorem topDown_parseJson (x) (h : r (.parseJson x) = none) : topDown r (.parseJson x) = .parseJson (topDown r x) := by
+  rw [topDown.eq_def, h]
 theorem topDown_cast (x t) (h : r (.cast x t) = none) : topDown r (.cast x t) = .cast (topDown r x) t := by rw [topDown.eq_def, h]
 theorem topDown_upper (x) (h : r (.upper x) = none) : topDown r (.upper x) = .upper (topDown r x) := by rw [topDown.eq_def, h]
 theorem topDown_lower (x) (h : r (.lower x) = none) : topDown r (.lower x) = .lower (topDown r x) := by rw [topDown.eq_def, h]
